@@ -417,7 +417,8 @@ def _model(t):
             {"s": [{"k": "assign", "p": _loc(0, dty), "r": _agg(OPTION, "None", 0, []), "sp": sp}], "t": {"k": "return", "sp": sp}},
             {"s": [{"k": "assign", "p": _loc(0, dty), "r": _agg(OPTION, "Some", 1, [{"k": "move", "p": _loc(2, vty)}]), "sp": sp}], "t": {"k": "return", "sp": sp}},
         ])
-    if d in ("core::result::Result::<T, E>::ok", "core::result::Result::<T, E>::err") and len(args) == 1:
+    # (`Result::ok` / `Result::err` are deliberately not modelled: R-ERR reads `.ok()` as "error discarded")
+    if False and d in ("core::result::Result::<T, E>::ok", "core::result::Result::<T, E>::err") and len(args) == 1:
         rty = _ty_of(args[0])
         want = 0 if d.endswith("::ok") else 1
         pl = {"l": 1, "pr": [{"dc": "Ok" if want == 0 else "Err", "vi": want}, {"f": 0, "n": "0", "a": RESULT, "ty": ""}], "ty": ""}
